@@ -325,3 +325,60 @@ def inline_expr_helpers(F, f, keep=(), depth=0):
     g = dict(f)
     g["body"] = rec(f.get("body"))
     return g
+
+
+def inline_value_lambdas(f):
+    """A copy of function f in which a call of a local lambda whose body is `[const locals;] return <expr>;` is replaced by
+    that expression over the call's arguments (captures are the enclosing function's own variables and stay as they are).
+    Statement lambdas (no value returned) are left alone."""
+    import copy
+    lambdas = {}
+    for n in walk(f.get("body")):
+        if n.get("k") == "decl" and isinstance(n.get("init"), dict) and n["init"].get("k") == "lambda":
+            lambdas[n["id"]] = n["init"]
+
+    def subst(e, env):
+        if isinstance(e, list):
+            return [subst(x, env) for x in e]
+        if not isinstance(e, dict):
+            return e
+        if e.get("k") == "var" and e.get("id") in env:
+            return copy.deepcopy(env[e["id"]])
+        return {k_: (subst(v, env) if isinstance(v, (dict, list)) and k_ not in ("t", "ty", "lt", "to", "callee") else v) for k_, v in e.items()}
+
+    def body_expr(sp_, args):
+        ps = sp_.get("params", [])
+        b = sp_.get("body")
+        if b is None or len(ps) != len(args):
+            return None
+        env = {p_["id"]: a_ for p_, a_ in zip(ps, args)}
+        for st in (b.get("body", []) if b.get("k") == "block" else [b]):
+            k = st.get("k") if isinstance(st, dict) else None
+            if k == "null":
+                continue
+            if k == "decl" and st.get("init") is not None and st.get("bind") != "alias" and (st.get("ty") or {}).get("c") in ("int", "double", "bool"):
+                env[st["id"]] = subst(st["init"], env)
+                continue
+            if k == "return" and st.get("e") is not None:
+                return subst(st["e"], env)
+            return None
+        return None
+
+    def rec(n, depth=0):
+        if isinstance(n, list):
+            return [rec(x, depth) for x in n]
+        if not isinstance(n, dict):
+            return n
+        if n.get("k") == "call" and (n.get("callee") or {}).get("op") == "()" and isinstance(n.get("obj"), dict) and depth < 4:
+            o = strip_copy(n["obj"])
+            lam = lambdas.get(o.get("id")) if isinstance(o, dict) and o.get("k") == "var" else None
+            if lam is not None:
+                specs = [sp_ for sp_ in lam.get("specs", []) if sp_.get("fid") == n["callee"].get("fid")] or (lam.get("specs", []) if len(lam.get("specs", [])) == 1 else [])
+                if len(specs) == 1:
+                    ex = body_expr(specs[0], [rec(a, depth) for a in n.get("args", [])])
+                    if ex is not None:
+                        return rec(ex, depth + 1)
+        return {k_: (rec(v, depth) if isinstance(v, (dict, list)) and k_ not in ("t", "ty", "lt", "to", "callee") else v) for k_, v in n.items()}
+    g = dict(f)
+    g["body"] = rec(f.get("body"))
+    return g
